@@ -2256,6 +2256,11 @@ namespace awkward {
     if (!branchdepth.first  &&  negaxis == branchdepth.second) {
       return out;
     }
+    else if (!ISOPTION) {
+      // nothing is missing: there are no gaps to put back into the result
+      // (which is a RecordArray when the content is one)
+      return out;
+    }
     else {
       if (RegularArray* raw =
           dynamic_cast<RegularArray*>(out.get())) {
